@@ -11,6 +11,8 @@ ORDER = ("updated", "allocated", "performed", "recorded")
 
 def forward_spec(rng, tier, focus=None, max_time=None, feasible=False):
     p = gen.gen_profile(rng, focus)
+    if tier == "thorough" and rng.random() < 0.08:
+        p["big"] = True  # 9-14 tasks (thorough tier only)
     m = gen.gen_feasible(rng, p) if feasible else gen.gen_model(rng, p)
     cfg = gen.gen_cfg(rng, p, max_time=max_time)
     ranks = gen.gen_ranks(rng, m)
